@@ -177,7 +177,14 @@ void Exec(const Op& op, const Shared& sh, Manifold& local, CrossSection& localC,
     case 7: { Manifold r = A.Translate(off) + B; v.push_back(Coarse(r)); break; }
     case 8: { Manifold r = A - B.Translate(off).Rotate(op.x * 20, op.y * 20, 7); v.push_back(r.NumTri()); v.push_back(Coarse(r)); break; }
     case 9: { Manifold r = A.Rotate(op.x * 50, op.y * 50, op.z * 50).Translate(off); v.push_back(Coarse(r)); (void)r.GetMeshGL(); break; }
-    case 10: { uint32_t n = uint32_t(op.n % 5 + 1); uint32_t id = Manifold::ReserveIDs(n); out.idRanges.push_back({id, n}); break; }
+    case 10: {
+      uint32_t n = uint32_t(op.n % 5 + 1);
+      // half of the time a burst of reservations, so that two threads are inside the allocator's
+      // read-modify-write window at the same moment (an atomicity violation there is invisible to TSan)
+      int reps = op.n >= 15 ? 4000 : 1;
+      for (int r = 0; r < reps; ++r) { uint32_t id = Manifold::ReserveIDs(n); out.idRanges.push_back({id, n}); }
+      break;
+    }
     case 11: v.push_back(oracle::HD(CA.Area(), 9)); v.push_back(CA.NumVert()); v.push_back(CA.NumContour()); v.push_back(oracle::HD(CA.GetTolerance(), 9)); v.push_back(HashPolys(CA.ToPolygons())); { Rect r = CA.Bounds(); v.push_back(oracle::HD(r.min.x, oracle::HD(r.max.y, 1))); } break;
     case 12: { localC = CA; CrossSection r = localC + CB.Translate(vec2(op.x, op.y)); v.push_back(CoarseCS(r)); (void)r.ToPolygons(); localC = CB; v.push_back(localC.NumVert()); break; }
     case 13: { Manifold r = A.AsOriginal(); out.freshIds.push_back(r.OriginalID()); v.push_back(r.NumTri()); v.push_back(oracle::Fingerprint(r, true)); break; }
